@@ -30,8 +30,8 @@ RULE = ("layer 1/2: every rooted tree of order <= 8 (200 trees, exhaustive) x {a
         "as constant state components; polynomial Hamiltonians) x integrator x grid; non-trivial = non-linear or non-autonomous instance whose "
         "coarsest-resolution error is above the rounding floor; distinct by (tree, entry point) resp. full instance")
 ASSUMPTIONS = [
-    "fixed-step order: the better of the two finest pairwise log2 error ratios over step halvings >= p - 0.5 (coarser pairs are pre-asymptotic), using only errors in [1e-11, 1e-2]*scale; fewer than 2 ratios => counted trivial, never failed",
-    "adaptive accuracy (at tol and tol/100; when the error at tol is >= the tolerance itself it must also drop >= 3x at tol/100): error at every requested time <= 100*max(1, r_scipy)*(rtol*|y|+atol) where r_scipy is SciPy's own error ratio for the same method family on the same instance, instances with ||J||*T <= 6",
+    "fixed-step order: the better of the two finest pairwise log2 error ratios over step halvings >= p - 0.5 (coarser pairs are pre-asymptotic), using only resolutions with >= 8 steps and errors in [1e-11, 1e-2]*scale; fewer than 2 ratios => counted trivial, never failed",
+    "adaptive accuracy (at tol and tol/100; when the error at tol is >= the tolerance itself it must also drop >= 3x at tol/100): error at every requested time <= 200*max(1, r_scipy)*(rtol*|y|+atol) (the RMS error norm is diluted ~3.6x by the 35 constant parameter components of the template) where r_scipy is SciPy's own error ratio for the same method family on the same instance, instances with ||J||*T <= 6",
     "reference solutions: SciPy DOP853 at rtol=atol=1e-13 on an independently written NumPy field",
 ]
 
@@ -212,18 +212,22 @@ def layer12(ctx, thetas):
 @st.composite
 def ode_case(draw):
     kind = draw(st.sampled_from(["linear-forced", "quadratic", "quadratic-forced", "quadratic-forced"]))
-    A = [draw(st.floats(-1.0, 1.0)) for _ in range(9)]
-    # keep growth moderate: subtract a multiple of identity so that the symmetric part is <= 0.5
+    # mostly rotational linear part (bounded growth over the span) + small symmetric part
+    a, b, c = [draw(st.floats(-2.0, 2.0)) for _ in range(3)]
+    d = [draw(st.floats(0.0, 0.3)) for _ in range(3)]
+    sy = [draw(st.floats(-0.2, 0.2)) for _ in range(3)]
+    A = [-d[0], a + sy[0], b + sy[1], -a + sy[0], -d[1], c + sy[2], -b + sy[1], -c + sy[2], -d[2]]
     Q = [0.0] * 18; F = [0.0] * 3; G = [0.0] * 3
     if kind != "linear-forced":
-        Q = [draw(st.floats(-0.5, 0.5)) for _ in range(18)]
+        Q = [draw(st.floats(-0.3, 0.3)) for _ in range(18)]
     if kind != "quadratic":
         F = [draw(st.floats(-1.0, 1.0)) for _ in range(3)]
         G = [draw(st.floats(-1.0, 1.0)) for _ in range(3)]
     w = draw(st.floats(0.5, 3.0))
-    x0 = [draw(st.floats(-0.6, 0.6)) for _ in range(3)]
-    T = draw(st.floats(0.5, 2.0))
+    x0 = [draw(st.floats(-0.5, 0.5)) for _ in range(3)]
     method = draw(st.sampled_from([("fixed", 4), ("fixed", 6), ("fixed", 8), ("adaptive", 5), ("adaptive", 8)]))
+    # longer spans for higher fixed orders so that >= 3 resolutions with >= 8 steps stay above the rounding floor
+    T = draw(st.floats(1.0, 3.0)) * ({4: 1.0, 6: 1.5, 8: 2.5}[method[1]] if method[0] == "fixed" else 1.0)
     tol = draw(st.sampled_from([1e-6, 1e-8, 1e-10]))
     grid = draw(st.sampled_from(["uniform", "nonuniform"]))
     npts = draw(st.integers(3, 40))
@@ -288,7 +292,7 @@ def eval_ode(case, ctx):
             if e < 1e-11 * scale:
                 break
             N *= 2
-        good = [(N, e) for N, e in errs if e >= 1e-11 * scale]
+        good = [(N, e) for N, e in errs if e >= 1e-11 * scale and N >= 8]
         ratios = [math.log2(good[i][1] / good[i + 1][1]) for i in range(len(good) - 1) if good[i + 1][0] == 2 * good[i][0]]
         nt = ("ode", repr(case)) if len(ratios) >= 2 else None
         ctx.case(nontrivial=nt, cls=["ode:fixed%d" % p, "ode:" + case["kind"], "ode:ratios=%d" % min(len(ratios), 3)],
@@ -328,7 +332,9 @@ def eval_ode(case, ctx):
     rb = "ode:err/tol<1" if ratio < 1 else ("ode:err/tol<10" if ratio < 10 else ("ode:err/tol<30" if ratio < 30 else "ode:err/tol>=30"))
     ctx.case(nontrivial=nt, cls=["ode:adaptive%d" % p, "ode:" + case["kind"], "ode:grid-" + case["grid"], rb, rb + ":scipy>=10" if r_scipy >= 10 else rb + ":scipy<10"],
              sample={"case": case, "err/tol": ratio, "scipy err/tol": r_scipy, "err(tol)": emax1, "err(tol/100)": emax2} if nt and ctx.evaluations % 9 == 0 else None)
-    K = 100.0 * max(1.0, r_scipy)
+    K = 200.0 * max(1.0, r_scipy)
+    ctx.extra.setdefault("adaptive_err_over_tol_max_per_shard", [0.0])
+    ctx.extra["adaptive_err_over_tol_max_per_shard"][0] = max(ctx.extra["adaptive_err_over_tol_max_per_shard"][0], ratio / max(1.0, r_scipy))
     ratio2 = float(np.max(res[tol * 1e-2] / (tol * 1e-2 * np.abs(ref) + tol * 1e-2)))
     if emax2 > 1e3 * floor and not ratio2 <= K:
         ctx.fail("error-exceeds-tolerance-multiple:adaptive%d" % p, case,
@@ -347,7 +353,8 @@ def ham_case(draw):
     H = draw(hamtools.polyham(maxdeg=4, eps_max=0.3))
     x0 = [draw(st.floats(-0.4, 0.4)) for _ in range(6)]
     method = draw(st.sampled_from([("fixed", 4), ("fixed", 6), ("fixed", 8), ("adaptive", 5), ("adaptive", 8)]))
-    return {"H": H, "x0": x0, "T": draw(st.floats(0.5, 2.0)), "method": method[0], "order": method[1],
+    T = draw(st.floats(1.0, 3.0)) * ({4: 1.0, 6: 1.5, 8: 3.0}[method[1]] if method[0] == "fixed" else 1.0)
+    return {"H": H, "x0": x0, "T": T, "method": method[0], "order": method[1],
             "tol": draw(st.sampled_from([1e-7, 1e-9]))}
 
 
@@ -372,7 +379,7 @@ def eval_ham(case, ctx):
         while N <= 1024:
             sol = integ.integrate(hs, x0.copy(), np.linspace(0.0, T, N + 1))
             e = float(np.max(np.abs(sol.states[-1] - ref)))
-            if e <= 1e-2 * scale and e >= 1e-11 * scale:
+            if e <= 1e-2 * scale and e >= 1e-11 * scale and N >= 8:
                 good.append((N, e))
             if e < 1e-11 * scale:
                 break
